@@ -9,7 +9,10 @@ without waiting for each other:
           {download_best_version, overwrite(A), overwrite(B), modify(append x), modify(raises),
            upload(C)};
    dir :  EVERY ordered sequence of 2 / 3 from {add a, add b, delete c, list, add a (no-overwrite)}.
-Each under every schedule with <= d deviations; file sequences also with <= f injected faults.
+Each under every schedule with <= d deviations; file sequences also with <= f injected faults, and
+(default schedule; thorough d <= 1) on a file whose shares on two of the three servers are damaged, so
+that reads and modifications fail - after going through the read-retry path - until an overwrite
+replaces the shares.
 The start and finish of every serialised body is observed by wrapping (not replacing) the
 callable handed to MutableFileNode._do_serialized.
 Oracle: bodies start in request order; a body never starts before the previous one finished
@@ -99,24 +102,39 @@ def execute(case, prefix, seed):
             bsm = g.wait(n1.get_servermap(MODE_WRITE))     # servermap for upload(), taken before the sequence starts
             sm0 = bsm[0][1]
             g.quiesce()
+            readable = True
+            if case.get("damaged"):
+                # the block data of the shares on two of the three servers is damaged on disk: a read cannot gather
+                # k good shares (its first attempt fails, the retry path runs and fails too) until an overwrite
+                # replaces the shares
+                from .. import lib_mshare as ms
+                si_ = n1.get_storage_index()
+                for (sv, sh), blob in sorted(ms.slots_of(g.share_files(), si_).items()):
+                    if sv in (0, 1):
+                        d_ = ms.share_data(blob)
+                        f_ = ms.fields(d_)
+                        ms.write_share(g, si_, sv, sh, ms.container(blob, ms.flip(d_, f_["share_data"][0] + 1)))
+                readable = False
             MutableFileNode._do_serialized = wrapped
             boxes, exp, content = [], [], init
             for i, op in enumerate(case["ops"]):
                 n = (n1, n2)[i % 2]
                 if op == "download":
-                    d = n.download_best_version(); exp.append(("read", content))
+                    d = n.download_best_version(); exp.append(("read", content) if readable else ("err", "NotEnoughSharesError"))
                 elif op == "overwriteA":
-                    d = n.overwrite(MutableData(A)); content = A; exp.append(("ok", None))
+                    d = n.overwrite(MutableData(A)); content = A; exp.append(("ok", None)); readable = True
                 elif op == "overwriteB":
-                    d = n.overwrite(MutableData(B)); content = B; exp.append(("ok", None))
+                    d = n.overwrite(MutableData(B)); content = B; exp.append(("ok", None)); readable = True
                 elif op == "uploadC":
-                    d = n.upload(MutableData(C), sm0); content = C; exp.append(("ok", None))
+                    d = n.upload(MutableData(C), sm0); content = C; exp.append(("ok", None)); readable = True
+                elif op == "append" and not readable:
+                    d = n.modify(lambda old, sm, first: old + X); exp.append(("err", "NotEnoughSharesError"))
                 elif op == "append":
                     d = watch(n.modify(lambda old, sm, first: old + X), i, n.get_storage_index()); content = content + X; exp.append(("ok", None))
                 else:
                     def boom(old, sm, first):
                         raise Boom()
-                    d = n.modify(boom); exp.append(("err", "Boom"))
+                    d = n.modify(boom); exp.append(("err", "Boom" if readable else "NotEnoughSharesError"))
                 boxes.append(grid.box(d))
             g.sched.explore = True
             g.sched.run()
@@ -136,7 +154,13 @@ def execute(case, prefix, seed):
                         viol.append(("operation-failed:" + lib_imm.failure_name(bx[0][1]), "operation %d (%s) of %r failed without any injected fault: %s" % (i, case["ops"][i], case["ops"], bx[0][1].getErrorMessage()[:200])))
                     if e[0] == "read" and bx[0][0] == "ok" and bx[0][1] != e[1]:
                         viol.append(("read-out-of-order", "download requested as operation %d of %r returned contents that are not the contents at its turn (got %d bytes, expected %d)" % (i, case["ops"], len(bx[0][1]), len(e[1]))))
-            if not faulted:
+            if not faulted and not readable:
+                b3 = lib_mut.download(g, n1)
+                if not b3:
+                    viol.append(("operation-never-completes", "a download after %r (shares still damaged) never fired" % (case["ops"],)))
+                elif b3[0][0] == "ok" and b3[0][1] != content:
+                    viol.append(("final-contents-not-sequential", "after %r the damaged file reads %d bytes that were never written" % (case["ops"], len(b3[0][1]))))
+            elif not faulted:
                 b3 = lib_mut.download(g, n1)
                 if not b3 or b3[0][0] != "ok" or b3[0][1] != content:
                     viol.append(("final-contents-not-sequential", "after %r the file holds %r, sequential application gives %d bytes" % (case["ops"], b3 and (b3[0][0], b3[0][0] == "ok" and len(b3[0][1])), len(content))))
@@ -278,6 +302,10 @@ def run(tier, seed):
     res = grid.split_tasks(common.pmap, chunk, fcases + dcases, (seed,), d, 0)
     # several answers per reactor turn (grid.Sched.batch)
     res.merge(grid.split_tasks(common.pmap, chunk, [dict(c, batch=True) for c in fcases + dcases], (seed,), d - 1, 0))
+    # the file's shares on two of three servers are damaged: reads fail (after taking the retry path) until an
+    # overwrite replaces them; failed operations must not block the ones queued behind
+    dm = [dict(c, damaged=True) for c in fcases]
+    res.merge(grid.split_tasks(common.pmap, chunk, dm, (seed,), 0 if tier == "quick" else 1, 0))
     sel = [dict(c, fault_kinds=["error", "disconnect"]) for c in fcases[:: (3 if tier == "quick" else 5)]]
     res.merge(grid.split_tasks(common.pmap, chunk, sel, (seed,), 0, 1))
     # contention: a server refuses a test-and-set write as if another writer had been there first, which
